@@ -477,6 +477,10 @@ func payRun(r *rand.Rand, pool []*tax.Total) payEvent {
 		lines = append(lines, l)
 		ev.Lines = append(ev.Lines, jl)
 	}
+	if len(pool) > 0 && r.Intn(3) == 0 {
+		// a summary left over from an earlier calculation (or written by hand): the payment's tax is what its lines give
+		doc["tax"] = pool[r.Intn(len(pool))]
+	}
 	doc["lines"] = lines
 	data, err := json.Marshal(doc)
 	if err != nil {
